@@ -84,3 +84,7 @@ mod tests {
         assert!(Mac::deserialize(&data).is_err());
     }
 }
+
+#[cfg(all(test, pendulum_project_ntpd_rs_verif))]
+#[path = "/verif/harness/ntp-proto/hook_packet__mac.rs"]
+mod verif_hook;
